@@ -56,6 +56,48 @@ pub fn wire_of(cmd: &Command) -> Vec<u8> {
     c.into_inner().wr
 }
 
+/// Async flavour over a transport that accepts at most 5 bytes per write call (short writes are legal).
+pub struct ShortPipe {
+    rd: io::Cursor<Vec<u8>>,
+    pub wr: Vec<u8>,
+}
+impl tokio::io::AsyncRead for ShortPipe {
+    fn poll_read(mut self: std::pin::Pin<&mut Self>, _: &mut std::task::Context<'_>, buf: &mut tokio::io::ReadBuf<'_>) -> std::task::Poll<io::Result<()>> {
+        let mut tmp = vec![0u8; buf.remaining()];
+        let n = self.rd.read(&mut tmp).unwrap_or(0);
+        buf.put_slice(&tmp[..n]);
+        std::task::Poll::Ready(Ok(()))
+    }
+}
+impl tokio::io::AsyncWrite for ShortPipe {
+    fn poll_write(mut self: std::pin::Pin<&mut Self>, _: &mut std::task::Context<'_>, b: &[u8]) -> std::task::Poll<io::Result<usize>> {
+        let n = b.len().min(5);
+        self.wr.extend_from_slice(&b[..n]);
+        std::task::Poll::Ready(Ok(n))
+    }
+    fn poll_flush(self: std::pin::Pin<&mut Self>, _: &mut std::task::Context<'_>) -> std::task::Poll<io::Result<()>> {
+        std::task::Poll::Ready(Ok(()))
+    }
+    fn poll_shutdown(self: std::pin::Pin<&mut Self>, _: &mut std::task::Context<'_>) -> std::task::Poll<io::Result<()>> {
+        std::task::Poll::Ready(Ok(()))
+    }
+}
+
+pub fn wire_async(cmd: Option<&Command>, list: Option<CommandList>) -> Vec<u8> {
+    let rt = tokio::runtime::Builder::new_current_thread().build().unwrap();
+    rt.block_on(async {
+        let io = ShortPipe { rd: io::Cursor::new(b"OK MPD 0.23.5\n".to_vec()), wr: vec![] };
+        let mut c = mpd_client::protocol::AsyncConnection::connect(io).await.expect("async connect over pipe");
+        if let Some(cmd) = cmd {
+            c.send(cmd.clone()).await.expect("async send");
+        }
+        if let Some(list) = list {
+            c.send_list(list).await.expect("async send_list");
+        }
+        c.into_inner().wr
+    })
+}
+
 pub fn wire_of_list(list: CommandList) -> Vec<u8> {
     let mut c = Connection::connect(Pipe::new()).expect("connect over pipe");
     c.send_list(list).expect("send_list");
@@ -87,11 +129,11 @@ fn build_cmd(c: &Value) -> (Value, Option<Command>) {
     let name_b = bytes_of(&c["name"]);
     let name = match std::str::from_utf8(&name_b) {
         Ok(s) => s.to_string(),
-        Err(_) => return (json!({"build_ok": false, "steps": [], "wire": [], "not_utf8": true}), None),
+        Err(_) => return (json!({"build_ok": false, "steps": [], "wire": [], "wire_async_same": true, "not_utf8": true}), None),
     };
     let mut cmd = match Command::build(&name) {
         Ok(c) => c,
-        Err(_) => return (json!({"build_ok": false, "steps": [], "wire": [], "not_utf8": false}), None),
+        Err(_) => return (json!({"build_ok": false, "steps": [], "wire": [], "wire_async_same": true, "not_utf8": false}), None),
     };
     let mut steps = vec![];
     let empty = vec![];
@@ -110,7 +152,8 @@ fn build_cmd(c: &Value) -> (Value, Option<Command>) {
                           "is_str": matches!(a["ty"].as_str().unwrap_or("str"), "str" | "string" | "cow" | "cowb"), "solo": solo}));
     }
     let wire = wire_of(&cmd);
-    (json!({"build_ok": true, "steps": steps, "wire": wire, "not_utf8": false}), Some(cmd))
+    let wa = wire_async(Some(&cmd), None);
+    (json!({"build_ok": true, "steps": steps, "wire": wire, "wire_async_same": wa == wire, "not_utf8": false}), Some(cmd))
 }
 
 pub fn run_case(c: &Value) -> Value {
@@ -136,7 +179,7 @@ pub fn run_case(c: &Value) -> Value {
                 }
             }
             if built.is_empty() {
-                return json!({"e": "list", "id": c["id"], "n": 0, "lines": [], "wire": [], "len": 0, "path": c["path"]});
+                return json!({"e": "list", "id": c["id"], "n": 0, "lines": [], "wire": [], "wire_async_same": true, "len": 0, "path": c["path"]});
             }
             let path = c["path"].as_str().unwrap_or("add");
             let mut it = built.clone().into_iter();
@@ -155,8 +198,9 @@ pub fn run_case(c: &Value) -> Value {
                 }
             }
             let len = list.len();
+            let wa = wire_async(None, Some(list.clone()));
             let wire = wire_of_list(list);
-            json!({"e": "list", "id": c["id"], "n": built.len(), "lines": lines, "wire": wire, "len": len, "path": path})
+            json!({"e": "list", "id": c["id"], "n": built.len(), "lines": lines, "wire": wire, "wire_async_same": wa == wire, "len": len, "path": path})
         }
         _ => json!({"e": "noop", "id": c["id"]}),
     }));
